@@ -177,6 +177,10 @@ def conversion_table(ctx):
     """NumberType.convert: decision table over (unit given, own unit present, units equal, environment given, array);
     tests over the number held are free.  Shared with C16.R3 (options and conditions are compared after this conversion)
     and C17.R4."""
+    # a refused modification (other dimension) must not leave the custom units registered: the scope opened for the
+    # conversion is lexical (shared with C09.R4)
+    from . import C09 as _C09
+    _C09.r4_lexical_scopes(ctx)
     from ..flowexpr import consistent, paths, reduce_ifexp
     fn = ctx.fn(TN, "NumberType.convert")
     pa = [a.arg for a in fn.args.args]
